@@ -28,10 +28,41 @@ Proof.
   reflexivity.
 Qed.
 
+Lemma filter_all_false {A} (f : A -> bool) l : (forall x, In x l -> f x = false) -> filter f l = [].
+Proof.
+  induction l as [|x r IH]; intros H; [reflexivity|]. cbn [filter].
+  rewrite (H x (or_introl eq_refl)). apply IH. intros y Hy. apply H. right. exact Hy.
+Qed.
+
+(* a range whose span is at most ten steps has at most nine elements after the first *)
+Lemma zrange_tail_nine start stop step :
+  0 < step -> stop - start <= 10 * step ->
+  zrange_tail start stop step
+  = filter (fun v => v <? stop) (map (fun k => start + Z.of_nat k * step) (seq 1 9)).
+Proof.
+  intros Hs Hspan. unfold zrange_tail. set (n := Z.to_nat (stop - start)).
+  set (g := fun k => start + Z.of_nat k * step).
+  assert (Hout : forall a len, (forall k, In k (seq a len) -> stop <= g k) ->
+                 filter (fun v => v <? stop) (map g (seq a len)) = []).
+  { intros a len H. apply filter_all_false. intros v Hv. apply in_map_iff in Hv. destruct Hv as [k [<- Hk]].
+    apply Z.ltb_ge. apply H. exact Hk. }
+  destruct (Nat.le_gt_cases n 9) as [Hle|Hgt].
+  - replace 9%nat with (n + (9 - n))%nat at 1 by lia. rewrite seq_app, map_app, filter_app.
+    rewrite (Hout (1 + n)%nat (9 - n)%nat); [rewrite app_nil_r; reflexivity|].
+    intros k Hk. apply in_seq in Hk. unfold g. subst n. nia.
+  - replace n with (9 + (n - 9))%nat by lia. rewrite seq_app, map_app, filter_app.
+    rewrite (Hout (1 + 9)%nat (n - 9)%nat); [rewrite app_nil_r; reflexivity|].
+    intros k Hk. apply in_seq in Hk. unfold g. nia.
+Qed.
+
 Lemma log10_digit_values_g_eq U j : log10_digit_values_g U j = log10_digit_values U j.
 Proof.
   unfold log10_digit_values_g, log10_digit_values, gend_log10_step, gend_log10_stop, gend_log10_start.
-  rewrite Nat2Z.inj_succ. unfold Z.succ. f_equal.
+  pose proof (pow10_pos j) as Hp.
+  rewrite zrange_tail_nine.
+  - rewrite Nat2Z.inj_succ. unfold Z.succ. f_equal.
+  - exact Hp.
+  - replace (Z.of_nat j + 1) with (Z.of_nat (S j)) by lia. rewrite pow10_S. lia.
 Qed.
 
 Lemma linear_values_g_eq U : 0 <= U -> linear_values_g U = map Z.of_nat (seq 0 (S (Z.to_nat U))).
